@@ -187,8 +187,9 @@ def run(ctx) -> None:
     agg_tests = match.test_nodes(cfg, lambda t: "T" if isinstance(t, ast.Name) and t.id == ISAGG else None)
     ctx.require(bool(agg_tests), "anchor missing: is_aggregate test in _schedule")
     # the lists tested must be what their names say
-    _check_state_list(ctx, sched, PFAILED, "FAILED_STATE", "C01.R3-failed-shutdown-producers", DEPS)
-    _check_state_list(ctx, sched, PSHUT, "SHUTDOWN_STATE", "C01.R3-failed-shutdown-producers", DEPS)
+    observed_ok = _finish_veto_holds(ctl)
+    _check_state_list(ctx, sched, PFAILED, "FAILED_STATE", "C01.R3-failed-shutdown-producers", DEPS, observed_ok)
+    _check_state_list(ctx, sched, PSHUT, "SHUTDOWN_STATE", "C01.R3-failed-shutdown-producers", DEPS, observed_ok)
     for rn in ready_nodes:
         ok = match.only_via_edges(cfg, rn, [(n, "F") for n, _ in failed_tests])
         ctx.ob("C01.R3-failed-shutdown-producers", rn.ast, ok,
@@ -559,9 +560,45 @@ def _second_arg_is(node: ast.AST, const_name: str) -> bool:
     return False
 
 
-def _check_state_list(ctx, fn, name: str, state: str, rule: str, deps: str = "dependencies") -> None:
+def _finish_veto_holds(ctl) -> bool:
+    """_input_dependencies_satisfied answers False for a subject whose finish() was called (the obligation of R4, decided here without
+    recording it): then every dependency that reaches the state tests of _schedule is either observed done or not being finished, and
+    the state the controller has OBSERVED (get_node_state) gives the same verdicts as the live state."""
+    ids = ctl.func("Controller._input_dependencies_satisfied")
+    c2 = CFG(ids)
+    ret_true = [n for n in c2.nodes if n.kind == "stmt" and isinstance(n.ast, ast.Return)
+                and isinstance(n.ast.value, ast.Constant) and n.ast.value.value is True]
+    for_nodes = [n for n in c2.nodes if n.kind == "for"]
+    fin_tests = match.test_nodes(c2, lambda t: match.polarity(t, lambda e: isinstance(e, ast.Attribute) and e.attr == "finishCalled"))
+    if not (ret_true and for_nodes and fin_tests):
+        return False
+    for rt in ret_true:
+        for (tn, lab) in fin_tests:
+            succ = [m for (m, l2) in tn.succ if l2 == lab]
+            if rt.id in c2.reach(succ, blocked=for_nodes):
+                return False
+    return True
+
+
+def _check_state_list(ctx, fn, name: str, state: str, rule: str, deps: str = "dependencies", observed_ok: bool = False) -> None:
     vals = match.assigned_value(fn, name)
     ctx.require(bool(vals), "anchor missing: %s in %s" % (name, source.qualname(fn)))
+
+    def observed_state_of(e: ast.AST, tgt: str) -> bool:
+        """self.get_node_state(<tgt>.specification.reference), or <table>[<tgt>] for a table {pr: self.get_node_state(pr...) for pr in deps}"""
+        def is_accessor(x: ast.AST, var: str) -> bool:
+            return isinstance(x, ast.Call) and last_attr(x) == "get_node_state" and len(x.args) == 1 \
+                and dotted(x.args[0]) == var + ".specification.reference"
+        if is_accessor(e, tgt):
+            return True
+        if isinstance(e, ast.Subscript) and isinstance(e.value, ast.Name) and isinstance(e.slice, ast.Name) and e.slice.id == tgt:
+            tables = match.assigned_value(fn, e.value.id)
+            return bool(tables) and all(
+                isinstance(t, ast.DictComp) and len(t.generators) == 1 and isinstance(t.generators[0].target, ast.Name)
+                and isinstance(t.key, ast.Name) and t.key.id == t.generators[0].target.id and not t.generators[0].ifs
+                and isinstance(t.generators[0].iter, ast.Name) and t.generators[0].iter.id == deps
+                and is_accessor(t.value, t.generators[0].target.id) for t in tables)
+        return False
     for v in vals:
         ok = False
         if isinstance(v, ast.ListComp) and len(v.generators) == 1 and len(v.generators[0].ifs) == 1:
@@ -569,7 +606,7 @@ def _check_state_list(ctx, fn, name: str, state: str, rule: str, deps: str = "de
             cond = g.ifs[0]
             tgt = g.target.id if isinstance(g.target, ast.Name) else None
             cp = match.compare_parts(cond)
-            if cp and isinstance(cp[1], ast.Eq) and tgt and dotted(cp[0]) == tgt + ".state":
+            if cp and isinstance(cp[1], ast.Eq) and tgt and (dotted(cp[0]) == tgt + ".state" or (observed_ok and observed_state_of(cp[0], tgt))):
                 rhs = _const_name(fn, cp[2])
                 ok = rhs == state and isinstance(v.elt, ast.Name) and v.elt.id == tgt \
                     and isinstance(g.iter, ast.Name) and g.iter.id == deps
